@@ -5,6 +5,9 @@ package kubeeventsmanager
 
 import (
 	"context"
+	"sort"
+
+	"github.com/deckhouse/deckhouse/pkg/log"
 
 	"k8s.io/apimachinery/pkg/apis/meta/v1/unstructured"
 
@@ -88,4 +91,34 @@ func (f *VFakeManager) PauseHandleEvents()          { f.Paused = true }
 // VApplyFilter exposes applyFilter with the real jq filter (exporter only).
 func VApplyFilter(jqFilter string, obj *unstructured.Unstructured) (*kemtypes.ObjectAndFilterResult, error) {
 	return applyFilter(jqFilter, jq.NewFilter(), nil, obj)
+}
+
+// VInformer drives the real resourceInformer (handleWatchEvent, the cache and
+// getCachedObjects) for harnesses of the packages above: an exporter only.
+type VInformer struct {
+	ei     *resourceInformer
+	Events []kemtypes.KubeEvent
+}
+
+func VNewInformer(mc *MonitorConfig) *VInformer {
+	v := &VInformer{}
+	v.ei = newResourceInformer("ns", "", &resourceInformerConfig{
+		mstor:   &metric.VFakeStorage{},
+		eventCb: func(ev kemtypes.KubeEvent) { v.Events = append(v.Events, ev) },
+		monitor: mc,
+		logger:  log.NewNop(),
+	})
+	v.ei.eventCbEnabled = true
+	return v
+}
+
+func (v *VInformer) Watch(obj *unstructured.Unstructured, wt kemtypes.WatchEventType) {
+	v.ei.handleWatchEvent(obj, wt)
+}
+
+// Snapshot is what monitor.Snapshot returns for a monitor with this one informer.
+func (v *VInformer) Snapshot() []kemtypes.ObjectAndFilterResult {
+	objects := v.ei.getCachedObjects()
+	sort.Sort(kemtypes.ByNamespaceAndName(objects))
+	return objects
 }
